@@ -42,12 +42,6 @@ Proof.
   - apply existsb_exists. exists e. split; [assumption|now apply stype_eqb_eq].
 Qed.
 
-Lemma types_eqb_eq a b : types_eqb a b = true -> a = b.
-Proof.
-  revert b. induction a as [|x a IH]; intros [|y b] H; cbn [types_eqb] in H; try discriminate H; [reflexivity|].
-  apply andb_true_iff in H. destruct H as [H1 H2]. apply stype_eqb_eq in H1. apply IH in H2. now subst.
-Qed.
-
 (* ------------------------------------------------------------------ the parser: one fact for all three folds
    an accumulator step is "good" when the cache and the rows only grow and every new cache entry is a new row *)
 Definition grows (a b : list row * list row) : Prop :=
@@ -134,61 +128,84 @@ Proof.
 Qed.
 
 (* ------------------------------------------------------------------ the invariant
-   I: every announced triple has its row inserted (required only while no series insert has failed
-      since the last reset);  J: every acknowledged sample has the row of its day and type. *)
+   I: every cached triple has its row inserted;  J: every acknowledged sample has the row of its day and type;
+   P: every sample of a request in flight has its row inserted already or carries it among its own rows. *)
 Definition I (st : state) : Prop := incl (cache st) (ts_rows st).
 Definition J (st : state) : Prop := forall fp d t, In (fp, d, t) (acked st) -> In (d, fp, t) (ts_rows st).
+Definition covered (rows : list row) (f : flight) : Prop :=
+  forall fp d t, In (fp, d, t) (snd f) -> In (d, fp, t) (fst f) \/ In (d, fp, t) rows.
+Definition P (st : state) : Prop := forall f, In f (pending st) -> covered (ts_rows st) f.
+Definition inv (st : state) : Prop := I st /\ J st /\ P st.
 
-Definition next_dirty (a : action) : bool :=
-  match a with CacheReset => false | Push _ ts_ok _ => negb ts_ok end.
-Definition allowed (dirty : bool) (a : action) : Prop :=
-  match a with CacheReset => True | Push _ _ _ => dirty = false end.
+Lemma covered_mono rows rows' f : incl rows rows' -> covered rows f -> covered rows' f.
+Proof. intros Hi Hc fp d t Hin. destruct (Hc fp d t Hin) as [H|H]; [now left|right; now apply Hi]. Qed.
 
-Lemma step_inv st a dirty :
-  allowed dirty a -> J st -> (dirty = false -> I st) ->
-  J (fst (step st a)) /\ (next_dirty a = false -> I (fst (step st a))).
+Lemma remove_nth_In {A} (x : A) : forall k l, In x (remove_nth k l) -> In x l.
 Proof.
-  intros Ha HJ HI. destruct a as [ss ts_ok spl_ok|]; cbn [step].
-  - cbn [allowed] in Ha. specialize (HI Ha).
-    destruct (parse (cache st) ss) as [c' rows] eqn:Ep. cbn [fst].
-    apply parse_spec in Ep. destruct Ep as [P1 [P2 P3]].
-    (* after the parse the cache is covered by the rows present, if the series insert took place or was not needed *)
-    assert (Hcov : is_nil rows || ts_ok = true ->
-                   incl c' (if ts_ok then rows ++ ts_rows st else ts_rows st)).
-    { intros Hd x Hin. destruct (P3 x Hin) as [H0|Hr].
-      - apply HI in H0. destruct ts_ok; [apply in_or_app; now right|assumption].
-      - destruct ts_ok; [apply in_or_app; now left|].
-        rewrite orb_false_r in Hd. destruct rows; [destruct Hr|discriminate Hd]. }
-    split.
-    + intros fp d t Hin. cbn [acked ts_rows] in *.
-      destruct (is_nil rows || ts_ok) eqn:Ed; cbn [andb] in Hin.
-      * destruct spl_ok; cbn in Hin.
-        -- apply in_app_or in Hin. destruct Hin as [Hin|Hin].
-           ++ apply samples_of_In in Hin. destruct Hin as [s [e [Hs [He [-> [-> ->]]]]]].
-              apply (Hcov eq_refl). now apply (P2 s e).
-           ++ pose proof (HJ _ _ _ Hin) as Ht'. destruct ts_ok; [apply in_or_app; now right|assumption].
-        -- pose proof (HJ _ _ _ Hin) as Ht'. destruct ts_ok; [apply in_or_app; now right|assumption].
-      * pose proof (HJ _ _ _ Hin) as Ht'. destruct ts_ok; [apply in_or_app; now right|assumption].
-    + cbn [next_dirty]. intros Hn. apply negb_false_iff in Hn. subst ts_ok.
-      unfold I. cbn [cache ts_rows]. apply (Hcov (orb_true_r _)).
-  - cbn [fst next_dirty]. split; [exact HJ|]. intros _ x [].
+  induction k as [|k IH]; intros [|y l] H; cbn [remove_nth] in H; try contradiction.
+  - now right.
+  - destruct H as [<-|H]; [now left|right; now apply IH].
 Qed.
 
-Lemma clean_step dirty a h :
-  clean_hist dirty (a :: h) = true -> allowed dirty a /\ clean_hist (next_dirty a) h = true.
+Lemma begin_covered st ss : I st -> covered (ts_rows st) (begin_req st ss).
 Proof.
-  destruct a as [ss ts_ok spl_ok|]; cbn [clean_hist allowed next_dirty].
-  - intros H. apply andb_true_iff in H. destruct H as [H1 H2]. apply negb_true_iff in H1. auto.
-  - auto.
+  intros HI fp d t Hin. unfold begin_req in *. cbn [fst snd] in *.
+  destruct (parse (cache st) ss) as [c' rows] eqn:Ep. cbn [snd].
+  apply parse_spec in Ep. destruct Ep as [_ [P2 P3]].
+  apply samples_of_In in Hin. destruct Hin as [s [e [Hs [He [-> [-> ->]]]]]].
+  destruct (P3 _ (P2 s e Hs He)) as [H|H]; [right; now apply HI|now left].
 Qed.
 
-Lemma run_inv : forall h st dirty,
-  clean_hist dirty h = true -> J st -> (dirty = false -> I st) -> J (run st h).
+Lemma finish_inv st f ts_ok spl_ok pend :
+  inv st -> covered (ts_rows st) f -> incl pend (pending st) ->
+  inv (fst (finish st f ts_ok spl_ok pend)).
 Proof.
-  induction h as [|a h IH]; intros st dirty Hc HJ HI; cbn [run]; [assumption|].
-  apply clean_step in Hc. destruct Hc as [Ha Hc].
-  destruct (step_inv st a dirty Ha HJ HI) as [HJ' HI'].
-  exact (IH _ _ Hc HJ' HI').
+  intros [HI [HJ HP]] Hc Hpend. destruct f as [rows spl]. unfold finish. cbn [fst].
+  set (rows' := if ts_ok then rows ++ ts_rows st else ts_rows st).
+  assert (Hmono : incl (ts_rows st) rows').
+  { subst rows'. destruct ts_ok; [apply incl_appr|]; apply incl_refl. }
+  (* when the request is acknowledged all of its own rows are stored *)
+  assert (Hrows : (is_nil rows || ts_ok) && spl_ok = true -> incl rows rows').
+  { intros Ha. apply andb_true_iff in Ha. destruct Ha as [Ha _]. subst rows'.
+    destruct ts_ok; [apply incl_appl, incl_refl|].
+    rewrite orb_false_r in Ha. destruct rows; [intros ? []|discriminate Ha]. }
+  split; [|split].
+  - unfold I. cbn [cache ts_rows]. destruct ((is_nil rows || ts_ok) && spl_ok) eqn:Ea.
+    + apply incl_app; [now apply Hrows|]. eapply incl_tran; eassumption.
+    + eapply incl_tran; eassumption.
+  - intros fp d t Hin. cbn [acked ts_rows] in *. destruct ((is_nil rows || ts_ok) && spl_ok) eqn:Ea.
+    + apply in_app_or in Hin. destruct Hin as [Hin|Hin]; [|apply Hmono; now apply HJ].
+      destruct (Hc fp d t Hin) as [H|H]; [now apply (Hrows eq_refl)|now apply Hmono].
+    + apply Hmono. now apply HJ.
+  - intros g Hg. cbn [pending ts_rows] in *. apply (covered_mono (ts_rows st)); [assumption|]. apply HP. now apply Hpend.
+Qed.
+
+Lemma step_inv st a : inv st -> inv (fst (step st a)).
+Proof.
+  intros Hinv. pose proof Hinv as [HI [HJ HP]]. destruct a as [ss ts_ok spl_ok|ss|ss|k ts_ok spl_ok|k|]; cbn [step].
+  - pose proof (finish_inv st (begin_req st ss) ts_ok spl_ok (pending st) Hinv (begin_covered st ss HI) (incl_refl _)) as H.
+    destruct (finish st (begin_req st ss) ts_ok spl_ok (pending st)) as [st' ack]. exact H.
+  - exact Hinv.
+  - cbn [fst]. split; [exact HI|]. split; [exact HJ|].
+    intros f Hf. cbn [pending ts_rows] in *. apply in_app_or in Hf. destruct Hf as [Hf|[<-|[]]]; [now apply HP|].
+    now apply begin_covered.
+  - destruct (nth_error (pending st) k) as [f|] eqn:En; [|exact Hinv].
+    assert (Hf : covered (ts_rows st) f) by (apply HP; eapply nth_error_In; eassumption).
+    pose proof (finish_inv st f ts_ok spl_ok (remove_nth k (pending st)) Hinv Hf
+                           (fun x Hx => remove_nth_In x k _ Hx)) as H.
+    destruct (finish st f ts_ok spl_ok (remove_nth k (pending st))) as [st' ack]. exact H.
+  - destruct (nth_error (pending st) k) as [f|] eqn:En; [|exact Hinv].
+    cbn [fst]. split; [exact HI|]. split; [exact HJ|].
+    intros g Hg. cbn [pending ts_rows] in *. apply HP. eapply remove_nth_In; eassumption.
+  - cbn [fst]. split; [intros x []|]. split; [exact HJ|exact HP].
+Qed.
+
+Lemma inv_init : inv init.
+Proof. split; [intros x []|]. split; [intros ? ? ? []|intros ? []]. Qed.
+
+Lemma run_inv : forall h st, inv st -> inv (run st h).
+Proof.
+  induction h as [|a h IH]; intros st Hinv; cbn [run]; [assumption|]. apply IH. now apply step_inv.
 Qed.
 
 (* ------------------------------------------------------------------ boolean forms *)
@@ -210,37 +227,59 @@ Proof.
   unfold all_indexed_typed, all_indexed. rewrite !forallb_forall. intros H s Hs. apply indexed_typed_indexed. now apply H.
 Qed.
 
-Lemma acked_indexed_typed_clean h : clean_hist false h = true -> all_indexed_typed (run init h) = true.
+Lemma acked_indexed_typed_all h : all_indexed_typed (run init h) = true.
 Proof.
-  intros Hc. unfold all_indexed_typed. apply forallb_forall. intros [[fp d] t] Hin.
-  assert (HJ : J (run init h)).
-  { apply (run_inv h init false Hc); [intros ? ? ? []|intros _ ? []]. }
+  unfold all_indexed_typed. apply forallb_forall. intros [[fp d] t] Hin.
+  destruct (run_inv h init inv_init) as [_ [HJ _]].
   apply indexed_typed_of_row. now apply HJ.
 Qed.
 
-Lemma acked_indexed_clean h : clean_hist false h = true -> all_indexed (run init h) = true.
-Proof. intros Hc. apply all_typed_all. now apply acked_indexed_typed_clean. Qed.
+Lemma acked_indexed_all h : all_indexed (run init h) = true.
+Proof. apply all_typed_all. apply acked_indexed_typed_all. Qed.
+
+(* the cache never runs ahead of the table: whatever it holds has been inserted (so a hit can be trusted) *)
+Lemma cache_covered h : incl (cache (run init h)) (ts_rows (run init h)).
+Proof. destruct (run_inv h init inv_init) as [HI _]. exact HI. Qed.
 
 (* ------------------------------------------------------------------ witnesses *)
 (* one series, one log line on 2024-01-10 *)
 Definition w_stream : stream := {| s_fp := 7; s_entries := [{| e_ts := 1704888000000000000; e_type := TLog |}] |}.
-(* #13: the series insert of the first push fails (client sees 5xx, samples are stored); the client
-   retries the identical push, which is acknowledged although no series row was ever inserted *)
+Definition w_stream_metric : stream := {| s_fp := 7; s_entries := [{| e_ts := 1704888060000000000; e_type := TMetric |}] |}.
+Definition w_other : stream := {| s_fp := 9; s_entries := [{| e_ts := 1704888000000000000; e_type := TLog |}] |}.
+
+(* #13 as it was: the series insert of the first push fails (client sees 5xx, samples are stored); the client
+   retries the identical push, which was acknowledged although no series row was ever inserted ... *)
 Definition w_retry : list action := [Push [w_stream] false true; Push [w_stream] true true].
-Lemma w_retry_not_indexed : all_indexed (run init w_retry) = false.
+Lemma w_retry_old_not_indexed : all_indexed (run_old init w_retry) = false.
 Proof. vm_compute. reflexivity. Qed.
+(* ... and a second way into the same state: a body that is malformed after its first stream *)
+Definition w_badbody : list action := [PushBad [w_stream]; Push [w_stream] true true].
+Lemma w_badbody_old_not_indexed : all_indexed (run_old init w_badbody) = false.
+Proof. vm_compute. reflexivity. Qed.
+(* now the retry announces the series again *)
+Example w_retry_indexed :
+  run_obs init w_retry = [OPush false [(19732, 7, 1)] 1; OPush true [(19732, 7, 1)] 1] /\
+  run_obs init w_badbody = [OBad; OPush true [(19732, 7, 1)] 1].
+Proof. vm_compute. split; reflexivity. Qed.
+
+(* overlapping requests: B is parsed while the inserts of A are in flight, then A's series insert fails.
+   With an entry made at parse time B would have sent no row and been acknowledged. *)
+Definition w_overlap : list action := [Begin [w_stream]; Begin [w_stream]; End 0 false true; End 0 true true].
+Example w_overlap_indexed :
+  run_obs init w_overlap = [OBegin; OBegin; OPush false [(19732, 7, 1)] 1; OPush true [(19732, 7, 1)] 1] /\
+  all_indexed_typed (run init w_overlap) = true /\ acked (run init w_overlap) <> [].
+Proof. vm_compute. split; [reflexivity|]. split; [reflexivity|discriminate]. Qed.
 
 (* the witness of the fixed type defect: the same labels first with a log line, then with a metric
-   value on the same day. The second push now announces (day, fp, 2) and inserts the type-2 row. *)
-Definition w_stream_metric : stream := {| s_fp := 7; s_entries := [{| e_ts := 1704888060000000000; e_type := TMetric |}] |}.
+   value on the same day. The second push announces (day, fp, 2) and inserts the type-2 row. *)
 Definition w_types : list action := [Push [w_stream] true true; Push [w_stream_metric] true true].
 Example w_types_indexed :
   all_indexed_typed (run init w_types) = true /\ ts_rows (run init w_types) = [(19732, 7, 2); (19732, 7, 1)].
 Proof. vm_compute. split; reflexivity. Qed.
 
-(* the guard is satisfiable by histories with faults, resets, several pushes of a series and varying types *)
-Definition w_clean : list action :=
-  [Push [w_stream] true true; Push [w_stream; w_stream_metric] false true; CacheReset;
-   Push [w_stream_metric] true false; Push [w_stream] true true].
-Example w_clean_ok : clean_hist false w_clean = true /\ types_stable w_clean = false /\ acked (run init w_clean) <> [].
-Proof. vm_compute. split; [reflexivity|]. split; [reflexivity|discriminate]. Qed.
+(* a history with faults, resets, overlapping requests, a malformed body and varying types that acknowledges samples *)
+Definition w_mixed : list action :=
+  [Push [w_stream] true true; Push [w_stream; w_stream_metric] false true; Begin [w_other]; CacheReset;
+   PushBad [w_other]; Push [w_stream_metric] true false; End 0 true true; Push [w_stream; w_other] true true].
+Example w_mixed_ok : List.length (acked (run init w_mixed)) = 4%nat /\ all_indexed_typed (run init w_mixed) = true.
+Proof. vm_compute. split; reflexivity. Qed.
